@@ -105,6 +105,18 @@ func genC05(r *fw.Rng, tier string, emit func(fw.Case)) {
 				extra = append(extra, mkFrame(bad.h, r.Bytes(1+r.Intn(20))))
 			}
 		}
+		if r.Chance(30) { // packets of the same id that announce ANOTHER total (not first packets): not part of the transfer
+			for k := 1 + r.Intn(3); k > 0; k-- {
+				other := len(t1.bodies) + r.Pick([]int{-2, -1, 1, 2, 7})
+				if other < 2 {
+					other = len(t1.bodies) + 1
+				}
+				no := 2 + r.Intn(other-1)
+				h := t1.packet(1, r).h
+				h.Sum, h.No, h.Serial = uint16(other), uint16(no), frames.RandU16(r)
+				extra = append(extra, mkFrame(h, r.Bytes(1+r.Intn(20))))
+			}
+		}
 		if r.Chance(15) { // packets of an id for which no packet 1 was ever seen
 			h := frames.H{ID: 0x0999, Frag: true, Phone: frames.RandPhone(r, false), Sum: 3, No: uint16(2 + r.Intn(2)), Serial: 9}
 			extra = append(extra, mkFrame(h, r.Bytes(5)))
